@@ -87,6 +87,23 @@ def run_kani_part(pid, part, tier, seed, report):
                 cands.append((q, 'panic:' + re.sub(r'\W+', '_', text)[:60], desc))
             else:
                 report['other_property_failures'].append({'harness': q, 'check': desc})
+    if part.get('native_sanity'):
+        # model validation: a harness the solver passed on the contract models must also run to its end natively,
+        # on the REAL dependency set (hashbrown, smallvec, ...), for a few concrete value vectors
+        checked = 0
+        for q in qualified:
+            if res[q].status != 'ok':
+                continue
+            for vec in ([1, 2, 3, 4, 5, 6, 7, 8, 9, 10, 11, 12], [7] * 12, [0, 1 << 32, 1, (1 << 64) - 1, 5, 5, 9, 1, 2, 3, 4, 5]):
+                out, txt = K.native_replay(q.split('::')[-1], vec, 'debug')
+                if out == 'reproduced':
+                    incon.append('%s passes on the contract models but fails natively on the real crates for values %s (model / real-crate mismatch): %s' % (q, vec, txt[-300:]))
+                    break
+                if out == 'error':
+                    incon.append('%s: native run on the real crates failed to execute: %s' % (q, txt[-200:]))
+                    break
+                checked += 1
+        report['native_model_validation_runs'] = report.get('native_model_validation_runs', 0) + checked
     report['kani_wall_s'] += wall
     n_lab = sum(res[q].labelled.get(l, 0) for q in qualified for l in accept)
     report['property_assertions'] = report.get('property_assertions', 0) + n_lab
